@@ -5,15 +5,17 @@ from . import c16_kernel as K
 from .. import framework as fw, kernels, kern
 
 FUNCTIONS = [
-    'type_inference/research/reference_algebra.py: TypeReference (Target, WeMustGoDeeper, To), Rank, Unify, UnifyFriendlyRecords, Incompatible, BadType, VeryConcreteType, ConcreteType, OpenRecord, ClosedRecord (real code under CrossHair)',
+    'type_inference/research/reference_algebra.py: TypeReference (Target, WeMustGoDeeper, To, CloseRecord), Rank, Unify, UnifyFriendlyRecords, Incompatible, BadType, VeryConcreteType, ConcreteType, OpenRecord, ClosedRecord (real code under CrossHair)',
 ]
 
 
 def replay_k(name, args):
   import os, subprocess, sys, tempfile, shutil
-  src = K.HEAD + K.TRIPLES
+  src = K.HEAD + K.TRIPLES + K.CLOSE
   body = ''
-  if name.startswith('k_unify_triple_'):
+  if name.startswith('k_close_record_t'):
+    body = K.close_fn(int(name[-1]))[1]
+  elif name.startswith('k_unify_triple_'):
     c = name[-3:]
     body = K.triple_fn(int(c[0]), int(c[1]), int(c[2]))[1]
   else:
@@ -36,8 +38,12 @@ def run():
   t0 = time.time()
   out = fw.Outcome('C16', 'other', t0)
   thorough = fw.tier() == 'thorough'
-  src = K.HEAD + K.TRIPLES
+  src = K.HEAD + K.TRIPLES + K.CLOSE
   names = []
+  for tc in range(5):
+    n, sfn = K.close_fn(tc)
+    names.append(n)
+    src += sfn
   for ca in K.CTORS:
     for cb in K.CTORS:
       n, s = K.pair_fn(ca, cb, nfields=1)
@@ -87,6 +93,7 @@ def run():
       'type terms: atoms {Any, Singular, Sequential, Num, Str, Bool, Time}, [atom], open and closed records over field a (quick) / fields a and 0 with atoms or lists of atoms (thorough)',
       'the harness-side meet is the specification (trusted): Any is top; Singular excludes lists; Sequential admits Str and lists; Singular meets Sequential in Str; records merge field-wise, open<=closed requires the open fields to exist',
       'clash is read off VeryConcreteType (a BadType anywhere in the rendered structure)',
+      'CloseRecord kernels: an open record {a: atom} reached through 1 or 2 unified references is closed through the root or through an alias; all handles must then denote the closed record and a third term (atom, [atom], open {a}, open {0}, closed {a}) unified through either handle must give the meet with the closed record',
       'outside: depth 3, more than two fields, cyclic references',
   ]
   return out.finish()
